@@ -744,7 +744,8 @@ func lemmaHandOverThenCreate(rt *esdtNFTCreateRoleTransfer, cr *esdtNFTCreate, o
 //@   loop 0 invariant forall(a, addr, k, bseq, St[a][k] != old(St)[a][k] ==> a == rcv && isTokKey(k))
 //@   loop 0 invariant St != old(St) && mustVerify(vmInput, 3 * numOfTransfers + 1) ==> payable(rcv)
 //@   loop 0 assert itemTag(i - 1)
-//@   loop 0 invariant !readFailed ==> propsKept(St, old(St), rcv, vmInput, i)
+//@   loop 0 invariant !readFailed ==> entryKept(St, old(St), rcv, vmInput, i)
+//@   loop 0 invariant !readFailed ==> propsSame(St, old(St), rcv, vmInput, i)
 //@   loop 0 invariant vmOutput.GasRemaining == vmInput.GasProvided && vmOutput.OutputAccounts == nil && vmOutput.ReturnCode == 0 && len(vmOutput.Logs) == numOfTransfers
 //@   ensures[C11] shape(out, err)
 //@   ensures[C17] err == nil ==> failed == old(failed)
